@@ -57,6 +57,9 @@ func init() {
 			Old:    "\tcase TypeFloat, TypeDouble, TypeTimestamp2, TypeDateTime2, TypeTime2, TypeJSON, TypeTinyBlob, TypeMediumBlob, TypeLongBlob, TypeBlob, TypeGeometry:\n\t\t// One byte.\n\t\treturn uint16(data[pos]), pos + 1, nil\n\n\tcase TypeNewDecimal, TypeEnum, TypeSet, TypeString:",
 			New:    "\tcase TypeFloat, TypeDouble, TypeTimestamp2, TypeDateTime2, TypeTime2, TypeJSON, TypeTinyBlob, TypeMediumBlob, TypeLongBlob, TypeBlob:\n\t\t// One byte.\n\t\treturn uint16(data[pos]), pos + 1, nil\n\n\tcase TypeNewDecimal, TypeEnum, TypeSet, TypeString, TypeGeometry:",
 			Expect: "C15-R5 metadata@"},
+		Variant{ID: "c15-r6-rejects-trailing-bytes", Prop: "C15", File: "replication/binlog_event_rbr.go",
+			Old: "\t// A bit array that says if each colum can be NULL.\n", New: "\tif pos+(columnCount+7)/8 < len(data) {\n\t\treturn nil, fmt.Errorf(\"trailing bytes\")\n\t}\n",
+			Expect: "C15-R6 tablemap-layout@trailing-accepted"},
 		Variant{ID: "c15-r6-tableid-width", Prop: "C15", File: "replication/binlog_event_common.go",
 			Old: "\tif f.HeaderSize(typ) == 6 {\n\t\t// Encoded in 4 bytes.", New: "\tif f.HeaderSize(typ) == 8 {\n\t\t// Encoded in 4 bytes.",
 			Expect: "C15-R6 tableid@"},
@@ -777,6 +780,56 @@ func c15R6(a *A) {
 		})
 		a.check(trailing == "", rule, "tablemap-layout@trailing", w.posOf(nbm), "nothing after the NULL-ability bitmap is read or length-checked (optional metadata of newer servers is ignored)",
 			"after the NULL-ability bitmap the parser "+trailing+": table maps from servers that append optional metadata are rejected or mis-read")
+	}
+	// a table map may be followed by bytes this parser does not know (newer masters append optional metadata after the
+	// NULL bitmap): no failing exit may depend on the body being at most / exactly some length
+	{
+		t := newTB(Specialize(tmf, nil, nil))
+		nb := 0
+		for _, ret := range returnsOf(tmf) {
+			n := len(ret.Results)
+			if n == 0 || isNilConst(resolve(ret.Results[n-1])) {
+				continue
+			}
+			for _, ce := range dominatingConds(ret.Block()) {
+				bo, ok := ce.Cond.(*ssa.BinOp)
+				if !ok {
+					continue
+				}
+				lenCoef := func(e aff) (int64, bool) {
+					var c int64
+					found := false
+					for sym, k := range e.syms {
+						if strings.HasPrefix(sym, "len(") {
+							c += k
+							found = true
+						}
+					}
+					return c, found
+				}
+				reason := ""
+				switch bo.Op {
+				case token.EQL, token.NEQ:
+					d := t.term(bo.X).add(t.term(bo.Y), -1)
+					if _, has := lenCoef(d); d.ok && has {
+						reason = "an (in)equality with the body length"
+					}
+				default:
+					if e, ok := t.leqZeroAff(bo, !ce.Val); ok {
+						if c, has := lenCoef(e); has && c < 0 {
+							reason = "the body being longer than expected"
+						}
+					}
+				}
+				if reason != "" {
+					nb++
+					a.viol(rule, fmt.Sprintf("tablemap-layout@trailing-accepted#%d", nb), w.posOf(ret), "TableMap fails on %s: table maps of newer masters carry optional metadata after the NULL bitmap and must decode to the same schema", reason)
+				}
+			}
+		}
+		if nb == 0 {
+			a.hold(rule, "tablemap-layout@trailing-accepted", w.pos(tmf.Pos()), "no failing exit depends on bytes remaining after the NULL bitmap")
+		}
 	}
 	a.check(okEnd, rule, "tablemap-layout@metadata-end", w.pos(tmf.Pos()), "the per-column metadata must end exactly where its announced length says", "the parser does not compare the end of the per-column metadata with the announced metadata length")
 	_ = types.Typ
